@@ -15,7 +15,7 @@ func init() {
 	Registry["C06"] = c06
 	Metas["C06"] = Meta{Level: "other", NeedCG: true,
 		Technique: "static analysis: ordering (dominance / reachability) of the durable writes on the three commit paths, sibling agreement, descriptor-last and sync-write rules over resolved call sites, effect-set comparison between the live post-commit path and crash recovery",
-		Explain: "Crash points cannot be enumerated statically; decided is the ORDER and AGREEMENT of durable writes that recovery relies on. (R1) pbft path: SaveBlock is never after ApplyBlock, ApplyBlock dominates State.Save which dominates updateToState; in ExecBlock SetBlockAndValidators dominates SaveIntermediate which dominates the success return; in the EVM app's OnCommit state commit < trie-db commit < SaveLastBlock; (R2) the fast-sync executor and the raft FSM perform the same SaveBlock < ApplyBlock < Save sequence on the state they publish; (R3) in BlockStore.SaveBlock no store write follows the height descriptor and both sanity checks precede the first write; (R4) the watermark keys (state, intermediate state, block-store descriptor, app last block) are only ever written with the synchronous variant; (R5) every State field assigned after the application commit on the live path is also restored by the 'crashed between app commit and State.Save' branch of RecoverFromCrash, and that branch loads the intermediate state before overwriting hashes; (R6) RecoverFromCrash runs on every start with a genesis and its error is fatal. NOT decided: behaviour at each crash point, LevelDB/batch atomicity, repeated crashes.",
+		Explain: "Crash points cannot be enumerated statically; decided is the ORDER and AGREEMENT of durable writes that recovery relies on. (R1) pbft path: SaveBlock is never after ApplyBlock, ApplyBlock dominates State.Save which dominates updateToState; in ExecBlock SetBlockAndValidators dominates SaveIntermediate which dominates the success return; in the EVM app's OnCommit state commit < trie-db commit < SaveLastBlock; (R2) the fast-sync executor and the raft FSM perform the same SaveBlock < ApplyBlock < Save sequence on the state they publish; (R3) in BlockStore.SaveBlock no store write follows the height descriptor and both sanity checks precede the first write; (R4) the watermark keys (state, intermediate state, block-store descriptor, app last block) are only ever written with the synchronous variant; (R5) every State field assigned after the application commit on the live path is also restored by the 'crashed between app commit and State.Save' branch of RecoverFromCrash, and that branch loads the intermediate state before overwriting hashes; (R6) RecoverFromCrash runs on every start with a genesis and its error is fatal. (R1 also) the application commit writes its append-only receipt/key-history records after its height watermark, and finalizeCommit skips SaveBlock only on the store's height descriptor. NOT decided: behaviour at each crash point, LevelDB/batch atomicity, repeated crashes.",
 		Assume: []string{"goleveldb SetSync is durable on return", "a single Set is atomic"},
 	}
 }
@@ -60,6 +60,21 @@ func c06R1(c *Ctx) {
 		c.before(rule, "finalizeCommit:SaveBlock≺ApplyBlock", f, sb, ab, false, "the block must be durable before it is executed (recovery replays it from the store)")
 		c.before(rule, "finalizeCommit:ApplyBlock≺Save", f, ab, sv, true, "the state is saved only after the application committed")
 		c.before(rule, "finalizeCommit:Save≺updateToState", f, sv, up, true, "the next height starts from a durable state")
+		if sb != nil {
+			want := "(gemmill/blockchain.(*BlockStore).Height(a0.blockStore) < "
+			has, other := false, ""
+			for _, g := range f.AllGuardForms(sb) {
+				if !strings.Contains(g, "a0.blockStore") {
+					continue
+				}
+				if strings.HasPrefix(g, want) && strings.HasSuffix(g, ".Header.Height)") {
+					has = true
+				} else if !strings.Contains(g, " > gemmill/blockchain.(*BlockStore).Height(a0.blockStore))") {
+					other = g
+				}
+			}
+			c.R.Ob(rule, "finalizeCommit:SaveBlock-skipped-only-by-store-height", has && other == "", c.Pos(sb), fname(f), "SaveBlock may be skipped (WAL replay after a crash) only when the store's height descriptor — written last by SaveBlock (R3) — already covers the block; any earlier-written key (block meta, parts) exists after a crash in the middle of SaveBlock; offending guard: "+other)
+		}
 		if ab != nil && sv != nil {
 			c.R.Ob(rule, "finalizeCommit:same-state-object", callArg(sv, 0) == callArg(ab, 0) && up != nil && callArg(up, 1) == callArg(ab, 0), c.Pos(sv), fname(f), "the state that executed the block is the one saved and published")
 		}
@@ -84,6 +99,8 @@ func c06R1(c *Ctx) {
 		sl := firstCall(f, "gemmill/types.(*BaseApplication).SaveLastBlock")
 		c.before(rule, "OnCommit:StateDB.Commit≺TrieDB.Commit", f, cm, tc, true, "the trie nodes are flushed after the state root is computed")
 		c.before(rule, "OnCommit:TrieDB.Commit≺SaveLastBlock", f, tc, sl, true, "the app's height/hash watermark must not run ahead of the durable trie")
+		sr := firstCall(f, "chain/app/evm.(*EVMApp).SaveReceipts")
+		c.before(rule, "OnCommit:SaveLastBlock≺SaveReceipts", f, sl, sr, true, "the receipt / key-history records are append-only (not idempotent): they are written after the application's height watermark, so a block re-applied after a crash cannot append them twice")
 		if sl != nil {
 			ok := f.HasGuard(sl, func(g string) bool { return strings.HasPrefix(g, "(eth/trie.(*Database).Commit(") && strings.HasSuffix(g, " == nil)") })
 			c.R.Ob(rule, "OnCommit:SaveLastBlock⊣trie-commit-ok", ok, c.Pos(sl), fname(f), "watermark written although the trie commit failed; "+guardsText(f, sl))
